@@ -82,7 +82,7 @@ CHECKS.update({
          "Trusted: R-walk; line/column agreement of ranges with the text is C04's matter.",
          "DESIGN.md §3 C16"),
  "C17": ("runtime monitor: symbol names of generated multi-file projects compared with the generator's model and with the registration key; type symbols compared with the item symbol they resolve to",
-         "Held on 8k projects quick (120k thorough): every item kind x package depth 1-4, members, named/unnamed arguments, imports, package, and every type symbol resolved to an item of the project.",
+         "Held on 5k projects quick (120k thorough), each with per-item probe files: every item kind x package depth 1-4, members, named/unnamed arguments, imports, package, and every type symbol resolved to an item of the project.",
          "Trusted: the project model (names as written).",
          "DESIGN.md §3 C17"),
  "C18": ("runtime monitor: R-doc (expected documentation computed from a doc model of paragraphs/lines/words/tags) over generated documents with controlled comment situations in front of every documentable construct",
@@ -135,7 +135,7 @@ def main():
         }],
         "checks": checks,
         "not_applicable": na,
-        "notes": "Technique family: runtime monitoring and sanitizers. All project-based checks (C05-C10, C13, C17, C19) drive the parser through hostile pre-histories for half of their projects; generators deliberately include keyword-like and API-like identifiers in any case, repeated names, counts/lengths/depths around 16/32/64/128/256, boundary numbers, BOM and Unicode whitespace, recovered syntax errors inside project files (DESIGN.md 13-14). Exit codes of ./check: 0 held on what was observed, 1 violation (VIOLATION line), 2 build/harness error or inconclusive run. Known findings: /verif/known_findings.json (read-only at run time).",
+        "notes": "Technique family: runtime monitoring and sanitizers. All project-based checks (C05-C10, C13, C17, C19) drive the parser through hostile pre-histories for half of their projects; generators deliberately include keyword-like and API-like identifiers in any case, repeated names, counts/lengths/depths around 16/32/64/128/256, boundary numbers, BOM and Unicode whitespace, recovered syntax errors inside project files, plus a dictionary of all literals harvested from /repo/src at start-up (DESIGN.md 13-14). Exit codes of ./check: 0 held on what was observed, 1 violation (VIOLATION line), 2 build/harness error or inconclusive run. Known findings: /verif/known_findings.json (read-only at run time).",
     }
     json.dump(m, open("/verif/MANIFEST.json", "w"), indent=1)
     print(f"wrote MANIFEST.json: {len(checks)} checks, {len(na)} not_applicable")
